@@ -3,7 +3,7 @@
 Theorems: coq/Props/Properties_C02_weights.v about the model coq/Model/TensorWeights.v: the in-place backward sweep on a line gives
 b_i = a_i - a_{i+1}; for every dimension and every lower, lexicographically sorted set the computed weight of t is the
 inclusion-exclusion value  sum_{e in {0,1}^D, t+e in Theta} (-1)^|e|; the weights of a non-empty lower set sum to 1; inactive tensors
-(t + (1,..,1) in Theta) have weight 0.
+(t + (1,..,1) in Theta) have weight 0; sum_t w(t) V(t) = sum_t (mixed backward difference of V)(t) for every integer family V.
 Tie (exact comparison of integers): harness/twdrv.cpp calls the real computeTensorWeights(MultiIndexSet) on generated sets and on the
 `tensors` / `active_tensors` members of constructed Global and Fourier grids; the extracted models (ocaml/tensorweights_main.ml)
 recompute the weights: tw_cpp (mirror of the C++ control flow: sorted position maps, runs, in-place sweeps) and tw_lines (the model of
@@ -104,10 +104,12 @@ def gen_grid(r, cid):
     depth = r.randint(0, {1: 6, 2: 5, 3: 4, 4: 3}[d])
     if rule == "gauss-patterson":
         depth = min(depth, 3)
-    if ty.endswith("tensor") or "hyperbolic" in ty:
+    if "hyperbolic" in ty:
         depth = min(depth, 3)
     k = r.random()
     w = [] if k < 0.5 else [r.choice([1, 1, 2, 3]) for _ in range(d)]
+    if ty.endswith("tensor"):       # full tensor grids: the top level is weight * depth in every direction and the rules grow exponentially
+        depth, w = min(depth, 2 if d <= 3 else 1), []
     if ty in ("curved",):
         w = w + [r.choice([0, 1]) for _ in range(d)] if w else []
     return "grid %s %s %s %s %d %d w: %s" % (cid, fam, rule, ty, d, depth, " ".join(map(str, w)))
